@@ -113,6 +113,9 @@ impl FsDir {
                         }
                     }
                     Err(ref e) if e.kind() == ErrorKind::NotFound => {}
+                    // `<path>.gz` can be too long for a directory entry (or for PATH_MAX) when
+                    // `path` itself is not; then there is no such sibling to substitute.
+                    Err(ref e) if e.raw_os_error() == Some(libc::ENAMETOOLONG) => {}
                     Err(e) => return Err(e),
                 };
                 buf.truncate(path_len);
